@@ -433,13 +433,15 @@ static struct frame *g_fr; static int *g_depth; static const struct mcx_opts *g_
 const char *mcx_crash_prop = "C03";
 
 static uint64_t wd_last; static int wd_strikes;
+static volatile int g_in_step; static volatile uint64_t g_step_seq;
 static void on_crash(int sig);
 static void on_watchdog(int sig)
 {
         (void)sig;
         if (!g_st) return;
-        if (g_st->transitions == wd_last) { if (++wd_strikes >= 3) on_crash(SIGALRM); }
-        else { wd_strikes = 0; wd_last = g_st->transitions; }
+        /* only time spent inside one and the same call of the model's step function counts */
+        if (g_in_step && g_step_seq == wd_last) { if (++wd_strikes >= 6) on_crash(SIGALRM); }
+        else { wd_strikes = 0; wd_last = g_step_seq; }
 }
 
 static void on_crash(int sig)
@@ -453,7 +455,7 @@ static void on_crash(int sig)
         for (int i = 0; i < n; i++) { hh = (hh ^ (uint64_t)g_fr[i].action) * 1099511628211ULL; for (int k = 0; k < g_fr[i].ch.len; k++) hh = (hh ^ g_fr[i].ch.val[k]) * 1099511628211ULL; }
         char path[1024], msg[256];
         snprintf(path, sizeof path, "%s/%s_%s_crash_%016llx.replay", dir, mcx_crash_prop, g_opts->tag ? g_opts->tag : "x", (unsigned long long)hh);
-        snprintf(msg, sizeof msg, "C03: fatal signal %d (%s) while executing the last step of this path on the real code", sig, sig == SIGSEGV ? "SIGSEGV" : sig == SIGABRT ? "SIGABRT (assertion or abort)" : sig == SIGBUS ? "SIGBUS" : sig == SIGFPE ? "SIGFPE" : sig == SIGALRM ? "watchdog: the call did not return within 15 s" : "signal");
+        snprintf(msg, sizeof msg, "C03: fatal signal %d (%s) while executing the last step of this path on the real code", sig, sig == SIGSEGV ? "SIGSEGV" : sig == SIGABRT ? "SIGABRT (assertion or abort)" : sig == SIGBUS ? "SIGBUS" : sig == SIGFPE ? "SIGFPE" : sig == SIGALRM ? "watchdog: the call did not return within 30 s" : "signal");
         FILE *f = fopen(path, "w");
         if (f) {
                 fprintf(f, "# mcx replay file (crash)\n");
@@ -529,7 +531,9 @@ int mcx_explore(const struct mcx_model *m, const struct mcx_opts *o, struct mcx_
                 rle_unpack(arena + f->off, f->clen, scratch, ssz);
                 mcx_restore(scratch);
                 mcx_choices_begin(&f->ch);
+                g_step_seq++; g_in_step = 1;
                 int r = m->step(f->action);
+                g_in_step = 0;
                 mcx_choices_end();
                 if (f->ch.pos < f->ch.len)
                         mcx_fatal("transition took fewer choice points (%d) than its prefix (%d)", f->ch.pos, f->ch.len);
